@@ -5,6 +5,7 @@ From Coq Require Import Lia ZifyBool ZifyNat.
 
 Ltac simp_r :=
   cbn [r_method r_rawquery r_headers r_cookies r_form r_query r_body r_getbody r_reader r_unreplayable r_attempt
+       r_path r_pparams r_ordered
        set_headers set_cookies set_form set_body set_reader set_attempt].
 
 Definition refused (ro : option ropt) (s : rstate) : bool :=
@@ -103,33 +104,28 @@ Qed.
 
 (* ---------- what that request is: the caller's method, query, cookies and complete body ---------- *)
 
-Lemma prepare_query_fields s :
-  r_query (prepare detect c s) = r_query s /\ r_rawquery (prepare detect c s) = r_rawquery s.
-Proof.
-  unfold prepare, prep_body, prep_body_gen, prep_cookie, prep_header.
-  destruct s as [m rq h ck f q bd gb rd un at_]. simp_r.
-  split;
-  repeat match goal with
-         | |- context [if ?b then _ else _] => destruct b; simp_r
-         | |- context [match ?b with Some _ => _ | None => _ end] => destruct b; simp_r
-         end; reflexivity.
-Qed.
-
 Lemma prepare_query s : wire_query c (prepare detect c s) = wire_query c s.
 Proof.
-  unfold wire_query. destruct (prepare_query_fields s) as [-> ->]. reflexivity.
+  unfold wire_query. destruct (prepare_url_fields detect c s) as (-> & -> & _ & _). reflexivity.
+Qed.
+
+Lemma prepare_path s : wire_path c (prepare detect c s) = wire_path c s.
+Proof.
+  unfold wire_path. destruct (prepare_url_fields detect c s) as (_ & _ & -> & ->). reflexivity.
 Qed.
 
 Theorem first_wire_method_query s :
   w_method (wire_of c (prepare detect c s)) = r_method s /\
+  w_path (wire_of c (prepare detect c s)) = wire_path c s /\
   w_query (wire_of c (prepare detect c s)) = wire_query c s.
 Proof.
-  unfold wire_of. cbn [w_method w_query]. split; [apply prepare_method|apply prepare_query].
+  unfold wire_of. cbn [w_method w_path w_query].
+  split; [apply prepare_method|split; [apply prepare_path|apply prepare_query]].
 Qed.
 
 Lemma prep_body_cookies X : r_cookies (prep_body detect c X) = r_cookies X.
 Proof.
-  unfold prep_body, prep_body_gen. destruct X as [m rq h ck f q bd gb rd un at_]. simp_r.
+  unfold prep_body, prep_body_gen, detect_stage. destruct X as [m rq h ck f q bd gb rd un at_ pa pp od]. simp_r.
   repeat match goal with
          | |- context [if ?b then _ else _] => destruct b; simp_r
          | |- context [match ?b with Some _ => _ | None => _ end] => destruct b; simp_r
@@ -149,19 +145,37 @@ Qed.
 
 (* without form data the body on the wire is the caller's complete body *)
 Theorem first_wire_body s :
-  payload_forbid c (r_method s) = false -> c_form c = [] -> r_form s = [] ->
+  payload_forbid c (r_method s) = false -> c_form c = [] -> r_form s = [] -> r_ordered s = [] ->
   w_body (wire_of c (prepare detect c s)) = body_now s.
 Proof.
-  intros Hf Hcf Hrf. unfold wire_of. cbn [w_body]. unfold prepare.
+  intros Hf Hcf Hrf Hod. unfold wire_of. cbn [w_body]. unfold prepare.
   set (s1 := prep_cookie c (prep_header c s)).
   assert (H1 : r_method s1 = r_method s /\ r_form s1 = r_form s /\ r_getbody s1 = r_getbody s /\
-               r_reader s1 = r_reader s).
+               r_reader s1 = r_reader s /\ r_ordered s1 = r_ordered s).
   { unfold s1, prep_cookie, prep_header. destruct (nonempty (c_cookies c) && _); simp_r; repeat split. }
-  destruct H1 as (Em & Efm & Eg & Er).
-  unfold prep_body, prep_body_gen. rewrite Em, Hf, Hcf. cbn [nonempty andb]. rewrite Efm, Hrf. cbn [nonempty].
+  destruct H1 as (Em & Efm & Eg & Er & Eo).
+  unfold prep_body, prep_body_gen, detect_stage. rewrite Em, Hf, Hcf. cbn [nonempty andb].
+  rewrite Eo, Hod, Efm, Hrf. cbn [nonempty].
   unfold body_now.
   destruct (r_body s1); [|rewrite Eg, Er; reflexivity].
   repeat match goal with |- context [if ?b then _ else _] => destruct b end; simp_r; rewrite ?Eg, ?Er; reflexivity.
+Qed.
+
+(* ordered form data: the pairs in the caller's order, then the plain form data *)
+Theorem first_wire_ordered_body s :
+  payload_forbid c (r_method s) = false -> r_ordered s <> [] -> (r_attempt s <= 0)%Z ->
+  w_body (wire_of c (prepare detect c s)) =
+    Some (ordered_encode (r_ordered s) (if nonempty (c_form c) then add_values (c_form c) (r_form s) else r_form s)).
+Proof.
+  intros Hf Hod Ha. unfold wire_of. cbn [w_body]. unfold prepare.
+  set (s1 := prep_cookie c (prep_header c s)).
+  assert (H1 : r_method s1 = r_method s /\ r_form s1 = r_form s /\ r_ordered s1 = r_ordered s /\ r_attempt s1 = r_attempt s).
+  { unfold s1, prep_cookie, prep_header. destruct (nonempty (c_cookies c) && _); simp_r; repeat split. }
+  destruct H1 as (Em & Efm & Eo & Ea).
+  unfold prep_body, prep_body_gen. rewrite Em, Hf, Ea. cbn [orb].
+  replace (r_attempt s <=? 0)%Z with true by lia. rewrite andb_true_r.
+  assert (Hne : nonempty (r_ordered s) = true) by (destruct (r_ordered s); [contradiction Hod; reflexivity|reflexivity]).
+  destruct (nonempty (c_form c)); simp_r; rewrite Eo, Hne; unfold body_now; simp_r; rewrite ?Efm; reflexivity.
 Qed.
 
 (* a method that must not carry a payload sends none, on every attempt *)
@@ -169,7 +183,7 @@ Theorem first_wire_no_payload s :
   payload_forbid c (r_method s) = true -> w_body (wire_of c (prepare detect c s)) = None.
 Proof.
   intros Hf. unfold wire_of. cbn [w_body]. unfold prepare, prep_cookie, prep_header.
-  destruct s as [m rq h ck f q bd gb rd un at_]. simp_r. cbn [r_method] in Hf.
+  destruct s as [m rq h ck f q bd gb rd un at_ pa pp od]. simp_r. cbn [r_method] in Hf.
   unfold prep_body, prep_body_gen, body_now.
   destruct (nonempty (c_cookies c) && _); simp_r; rewrite Hf; reflexivity.
 Qed.
@@ -193,8 +207,8 @@ End RunProofs.
 
 (* ---------- the pinned code does not have these properties ---------- *)
 
-Definition ex_client : client := mkClient [] [(bs "a", bs "1")] [] [] true.
-Definition ex_state : rstate := mkR (bs "POST") [] [] [] [] [] None GBNil [] false 0.
+Definition ex_client : client := mkClient [] [(bs "a", bs "1")] [] [] true [].
+Definition ex_state : rstate := mkR (bs "POST") [] [] [] [] [] None GBNil [] false 0 [] [] [].
 Definition ex_ropt : ropt := mkRopt 1 0 [] [].
 Definition ex_script : list ain := [mkAin (OErr 1 false) []; mkAin (OStatus 200) []].
 
